@@ -2,7 +2,8 @@
    Only statements closed by `exact`, each followed by Print Assumptions; Examples show non-vacuity. *)
 From Coq Require Import List ZArith QArith Qabs Bool.
 From PV Require Import lib.Sx lib.Str lib.Result model.Geometry model.Positioning spec.SpecGeom spec.SpecPos.
-From PV Require Import proofs.GeomEq proofs.PosFacts proofs.Pos12Facts.
+From PV Require Import model.DfxpTree.
+From PV Require Import proofs.GeomEq proofs.PosFacts proofs.Pos12Facts proofs.DfxpTreeFacts.
 Import ListNotations.
 Open Scope Z_scope.
 
@@ -101,8 +102,9 @@ Theorem C12_dfxp_attr_roundtrip : forall l, nonneg_layout l ->
 Proof. exact dfxp_attr_roundtrip. Qed.
 Print Assumptions C12_dfxp_attr_roundtrip.
 
-(* FULL STATEMENT (not proved at tree level; the BeautifulSoup tree, the region ids on div/p/span and the reader's
-   tree walk are decided by execution in harness/props/C12.py):
+(* Per character (kept from round 1; the tree-level theorem C12_dfxp_layout_roundtrip below subsumes it for non-nested
+   spans).  Still decided by execution only: BeautifulSoup's parse of the written text, nested style nodes (the
+   writer flattens them: known finding), and that the tree model is what the code does (request 1210, every run):
      forall cs in dom, forall visible character ch of cs,
        effective (DFXPReader.read (DFXPWriter.write cs)) ch  ==  expected_effective (lang, caption, node layout of ch in transform cs)
    Proved part: for one character, the layout the writer chooses for it (get_positioning_info), written as region
@@ -112,6 +114,36 @@ Theorem C12_dfxp_layout_roundtrip_partial : forall l c n e,
   exists r, read_region (layout_attrs e) = Ok r /\ layout_equiv r (expected_effective l c n).
 Proof. exact dfxp_layout_roundtrip_char. Qed.
 Print Assumptions C12_dfxp_layout_roundtrip_partial.
+
+(* ---- the DFXP round trip over the document tree (model/DfxpTree.v) ------------------------------------------------- *)
+(* reader: an element without a region attribute takes the region of its NEAREST ancestor that has one - ancestors
+   without the attribute are skipped, ancestors further out and descendants are not consulted *)
+Theorem C12_nearest_ancestor_wins : forall pre r outer ds,
+  Forall (fun a => a = None) pre -> determine_region None (pre ++ Some r :: outer) ds = Some r.
+Proof. exact nearest_ancestor_wins. Qed.
+Print Assumptions C12_nearest_ancestor_wins.
+
+(* a <span> without region inside <p region=rp> inside <div region=rd> resolves to the p's region, not the div's *)
+Theorem C12_span_resolves_to_p : forall rp rd ds, determine_region None [Some rp; Some rd] ds = Some rp.
+Proof. exact span_resolves_to_p. Qed.
+Print Assumptions C12_span_resolves_to_p.
+
+(* what the reader resolves for the region id the writer assigned to a layout of the caption set *)
+Theorem C12_resolve_written_region : forall ls o, (o = None \/ In o ls) -> opt_nonneg o ->
+  exists r, resolve (map (fun kv => (snd kv, layout_attrs (fst kv))) (region_map ls)) (Some (region_lookup (region_map ls) o)) = Ok r
+            /\ layout_equiv r (exp_of o).
+Proof. exact resolve_written_region. Qed.
+Print Assumptions C12_resolve_written_region.
+
+(* TREE LEVEL: for every caption set whose captions consist of words, breaks and (non-nested) style spans with or
+   without a layout of their own, with layouts at language / caption / span level (non-negative lengths): the model of
+   DFXPWriter.write (region table, region attributes on div / p / span, span assembly from the flat node list) followed by
+   the model of the reader (region resolution, tree walk) gives the language, every caption and EVERY WORD the
+   statement's expected effective layout: node > caption > language, two-decimal values, defaults start / after *)
+Theorem C12_dfxp_layout_roundtrip : forall langs, Forall opt_nonneg (set_layouts (map to_dlang langs)) ->
+  exists obs, dfxp_roundtrip (map to_dlang langs) = Ok obs /\ Forall2 lang_rel obs langs.
+Proof. exact dfxp_layout_roundtrip. Qed.
+Print Assumptions C12_dfxp_layout_roundtrip.
 
 (* ---- non-vacuity -------------------------------------------------------------------------------------------- *)
 Example C12_ex_vtt :
@@ -145,3 +177,34 @@ Theorem C12_dfxp_roundtrip_meets_oracle : forall l c n e,
   exists r, read_region (layout_attrs e) = Ok r /\ ok_effective l c n (Some r) = true.
 Proof. exact ok_effective_model. Qed.
 Print Assumptions C12_dfxp_roundtrip_meets_oracle.
+Example C12_ex_tree :
+  let s v := mkSize v PCT in
+  let lang := mkLayout (Some (mkPoint (s (10 # 1)) (s (10 # 1)))) None None None None in
+  let cap := mkLayout (Some (mkPoint (s (20 # 1)) (s (60 # 1)))) None None None None in
+  (* <div region=r0><p region=r1>1 <span italic>2</span></p></div>: word 2 (span without region) gets the caption's layout *)
+  match dfxp_roundtrip [to_dlang (mkGlang (Some lang) [mkGcap (Some cap) [GPlain (GWord 1); GSpan true None [GWord 2]]])] with
+  | Ok [rl] => match rl_caps rl with
+               | [rc] => map (fun wl => (fst wl, l_origin (snd wl))) (rc_words rc)
+                         = [(1, Some (mkPoint (s (20 # 1)) (s (60 # 1)))); (2, Some (mkPoint (s (20 # 1)) (s (60 # 1))))]
+               | _ => False end
+  | _ => False
+  end.
+Proof. vm_compute. reflexivity. Qed.
+(* a span whose own layout is exactly the DFXP default (alignment start / after only) inside a caption that has a layout:
+   the span still gets region="bottom", so its word comes back with the defaults, not with the caption's origin *)
+Example C12_ex_default_span :
+  let s v := mkSize v PCT in
+  let cap := mkLayout (Some (mkPoint (s (20 # 1)) (s (60 # 1)))) None None (Some (mkAlign (Some HCenter) (Some VTop))) None in
+  match write_doc [to_dlang (mkGlang None [mkGcap (Some cap) [GPlain (GWord 1); GSpan true (Some dfxp_default_region) [GWord 2]]])] with
+  | mkXdoc _ [mkXdiv _ [mkXp (Some (RId 0)) [XText 1; XSpan (Some RDefault) [XText 2]]]] => True
+  | _ => False
+  end
+  /\ match dfxp_roundtrip [to_dlang (mkGlang None [mkGcap (Some cap) [GPlain (GWord 1); GSpan true (Some dfxp_default_region) [GWord 2]]])] with
+     | Ok [rl] => match rl_caps rl with
+                  | [rc] => map (fun wl => (fst wl, l_origin (snd wl), l_alignment (snd wl))) (rc_words rc)
+                            = [(1, Some (mkPoint (s (20 # 1)) (s (60 # 1))), Some (mkAlign (Some HCenter) (Some VTop)));
+                               (2, None, Some (mkAlign (Some HStart) (Some VBottom)))]
+                  | _ => False end
+     | _ => False
+     end.
+Proof. split; vm_compute; [exact I|reflexivity]. Qed.
